@@ -1,9 +1,12 @@
 pub mod c05;
+pub mod c06;
+pub mod c07;
 pub mod c08;
 pub mod c09;
 pub mod c13;
 pub mod c19;
 pub mod c20;
+pub mod single;
 pub mod table_common;
 
 use crate::engine::PropertySpec;
@@ -11,6 +14,8 @@ use crate::engine::PropertySpec;
 pub fn spec(id: &str) -> Option<PropertySpec> {
     Some(match id {
         "C05" => c05::spec(),
+        "C06" => c06::spec(),
+        "C07" => c07::spec(),
         "C08" => c08::spec(),
         "C09" => c09::spec(),
         "C13" => c13::spec(),
